@@ -1,8 +1,255 @@
-import LitexModel.Codes.Code8b10b
-namespace Litex.C17
-open Litex.Code8b10b
+import LitexProofs.Codes.NoBubble
+/-
+  C17 — 8b/10b coding is invertible, DC-balanced and comma-safe (`litex/soc/cores/code_8b10b.py`).
 
-theorem roundtrip : ∀ d < 256, ∀ k disp : Bool, (Sym.mk d k).Valid →
-    decode1 (encode1 d k disp).1 = (d, k, false) := by decide +kernel
+  `encode1 d k disp` / `decode1 word` transcribe `SingleEncoder` / `Decoder` over the ten tables regenerated from
+  the repository on every run (`LitexModel/Generated/Tables8b10b.lean`).  A disparity bit is `false` for RD−,
+  `true` for RD+; `rd` maps it to −1/+1.  `encodeSeq disp syms` is the successive encoding of a symbol sequence
+  with chained running disparity, `serial` its bit stream in transmission order, `bal` = ones − zeros.
+  The finite facts are checked by the kernel over the whole domain (all 256 bytes × K flag × both disparities,
+  all 1024 decoder inputs); the sequence theorems are inductions over symbol sequences of arbitrary length.
+-/
+namespace Litex.C17
+open Litex.Code8b10b Litex.Stream Litex.Stream.Elem
+
+/-! ## Invertibility -/
+
+/-- Every data byte and every defined control symbol, under either running disparity, decodes to itself with
+    the right control flag and `invalid = 0`. -/
+theorem roundtrip (s : Sym) (h : s.Valid) (disp : Bool) :
+    decode1 (encode1 s.d s.k disp).1 = (s.d, s.k, false) :=
+  fin_roundtrip s.d h.1 s.k disp h
+
+/-- … hence for symbol sequences of any length, from either start disparity. -/
+theorem roundtrip_seq (disp : Bool) (syms : List Sym) (h : AllValid syms) :
+    (encodeSeq disp syms).map decode1 = syms.map fun s => (s.d, s.k, false) :=
+  seq_roundtrip disp syms h
+
+example : (Sym.mk 0xBC true).Valid ∧ (Sym.mk 0xF7 true).Valid ∧ ¬ (Sym.mk 0x00 true).Valid := by decide
+example : (encode1 0xBC true false).1 = 0b0011111010 ∧ (encode1 0xBC true true).1 = 0b1100000101 := by decide
+
+/-! ## DC balance -/
+
+/-- `disp_out` differs from `disp_in` exactly by the disparity of the emitted word: a word is balanced (5 ones)
+    iff the disparity is kept, has 6 ones iff RD− → RD+, 4 ones iff RD+ → RD−; the same for the 6b sub-block
+    against `disp_inter` and the 4b sub-block.  Holds for all 1024 encoder inputs (also K on undefined symbols). -/
+theorem disparity_step (d : Nat) (hd : d < 256) (k disp : Bool) :
+    bal (bitsMsb 10 (encode1 d k disp).1) = rd (encode1 d k disp).2 - rd disp ∧
+    bal (bitsMsb 6 ((encode1 d k disp).1 / 16)) = rd (dispInter (stage1 d k) disp) - rd disp ∧
+    bal (bitsMsb 4 ((encode1 d k disp).1 % 16)) = rd (encode1 d k disp).2 - rd (dispInter (stage1 d k) disp) :=
+  ⟨fin_disp_word d hd k disp, fin_disp_halves d hd k disp⟩
+
+/-- Over any symbol sequence from either start: at every symbol boundary the running disparity (start value plus
+    ones − zeros of everything emitted) equals the encoder's disparity bit, i.e. is −1 or +1 — within one bit of
+    balance — and at every bit position inside a symbol it stays within [−3, +3]. -/
+theorem running_disparity_bound (disp : Bool) (syms : List Sym) (h : Bytes syms) :
+    (∀ k, rd disp + bal ((serial (encodeSeq disp syms)).take (10 * k)) = rd (dispAfter disp (syms.take k))) ∧
+    (∀ k, rd disp + bal ((serial (encodeSeq disp syms)).take (10 * k)) = 1 ∨
+          rd disp + bal ((serial (encodeSeq disp syms)).take (10 * k)) = -1) ∧
+    (∀ m, -3 ≤ rd disp + bal ((serial (encodeSeq disp syms)).take m) ∧
+          rd disp + bal ((serial (encodeSeq disp syms)).take m) ≤ 3) :=
+  ⟨seq_disparity_boundary disp syms h,
+   fun k => by rw [seq_disparity_boundary disp syms h k]; exact rd_cases _,
+   seq_disparity_inside disp syms h⟩
+
+example : bal (serial (encodeSeq false [⟨3, false⟩, ⟨3, false⟩, ⟨0xBC, true⟩])) = 2 ∧
+    dispAfter false [⟨3, false⟩, ⟨3, false⟩, ⟨0xBC, true⟩] = true := by decide
+
+/-! ## Run length -/
+
+/-- No six equal bits in a row anywhere in the serial stream of any symbol sequence, from either start
+    (stronger than the property: also with the K flag on undefined symbols). -/
+theorem run_length_5 (disp : Bool) (syms : List Sym) (h : Bytes syms) (b : Bool) :
+    ¬ List.replicate 6 b <:+: serial (encodeSeq disp syms) :=
+  seq_run_length disp syms h b
+
+/-- Five in a row does occur (K.28.5), so the bound is tight. -/
+example : List.replicate 5 true <:+: serial (encodeSeq false [⟨0xBC, true⟩]) := by decide
+
+/-! ## Comma safety -/
+
+/-- In any sequence of data symbols, from either start, no 7-bit window of the serial stream — inside a word or
+    across a word boundary — equals a comma `0011111` / `1100000`. -/
+theorem no_false_comma (disp : Bool) (ds : List Nat) (h : ∀ d ∈ ds, d < 256) :
+    ¬ [false, false, true, true, true, true, true] <:+: serial (encodeSeq disp (dataSyms ds)) ∧
+    ¬ [true, true, false, false, false, false, false] <:+: serial (encodeSeq disp (dataSyms ds)) :=
+  seq_no_comma disp ds h
+
+/-- The comma control symbols do contain it (the statement is not vacuous about the pattern). -/
+example : [false, false, true, true, true, true, true] <:+: serial (encodeSeq false [⟨0xBC, true⟩]) := by decide
+
+/-! ## Invalid detection -/
+
+/-- `invalid` is raised exactly for the inputs whose number of ones is not 4, 5 or 6 (all 1024 inputs); in
+    particular every word with an impossible number of ones is reported. -/
+theorem invalid_ones (w : Nat) (h : w < 1024) :
+    (decode1 w).2.2 = true ↔ ¬ (ones10 w = 4 ∨ ones10 w = 5 ∨ ones10 w = 6) := by
+  rw [fin_invalid w h]
+  simp [and_assoc]
+
+example : (decode1 0b1111111000).2.2 = true ∧ (decode1 0b0011111010).2.2 = false := by decide
+
+/-! ## Multi-word encoder -/
+
+/-- `Encoder(nwords, lsb_first)` for every `ce` pattern: once two enabled edges have passed, the `n` parallel
+    output words are the `n` successive single encodings of the group presented at the last-but-one enabled edge,
+    chained from the running disparity left by all earlier groups (RD− at reset), in either bit order; the
+    `disparity` outputs are the running disparities after each word. -/
+theorem encoderN_chain (n : Nat) (lsb : Bool) (ins : List (Bool × List Sym))
+    (pre : List (List Sym)) (g last : List Sym) (h : enabledGroups ins = pre ++ [g, last]) :
+    ((encoder n lsb).run ins).outs = (encodeSeq (dispAfter false pre.flatten) g).map (fmt lsb) ∧
+    ((encoder n lsb).run ins).disps = dispSeq (dispAfter false pre.flatten) g ∧
+    ((encoder n lsb).run ins).disp = dispAfter false (pre.flatten ++ g) := by
+  have hr : (encoder n lsb).run ins = encRun lsb n (pre ++ [g, last]) := by
+    rw [← h]; exact encoder_runFrom n lsb ins _
+  rw [hr]
+  obtain ⟨h1, h2, h3, _⟩ := encRun_two lsb n pre g last
+  exact ⟨h1, h2, h3⟩
+
+example : enabledGroups [(true, [⟨3, false⟩, ⟨0xBC, true⟩]), (false, []), (true, [⟨5, false⟩, ⟨6, false⟩])] =
+    [] ++ [[⟨3, false⟩, ⟨0xBC, true⟩], [⟨5, false⟩, ⟨6, false⟩]] := by decide
+
+/-! ## Stream wrappers, every valid/ready schedule -/
+
+/-- `StreamDecoder(n)`: the accepted words, decoded, are the delivered tokens followed by the one in the output
+    stage — nothing lost, duplicated or reordered, first/last preserved. -/
+theorem streamDecoder_token_rel (n : Nat) (ins : List (In (List Nat))) :
+    ((streamDecoder n).accepted (streamDecoder n).init ins).map decTok =
+      (streamDecoder n).delivered (streamDecoder n).init ins ++
+        decInflight n ((streamDecoder n).runFrom (streamDecoder n).init ins) :=
+  rel_run_init (streamDecoder n) (decRel n) (by simp [decRel, streamDecoder, pipe1, decInflight])
+    (streamDecoder_step n) ins
+
+/-- `StreamEncoder(n)`: if the accepted tokens consist of bytes / defined control symbols, decoding everything
+    delivered and in flight gives back the accepted tokens — also across bubbles and stalls. -/
+theorem streamEncoder_decodable (n : Nat) (ins : List (In (List Sym)))
+    (h : ∀ t ∈ (streamEncoder n).accepted (streamEncoder n).init ins, AllValid t.data) :
+    (streamEncoder n).accepted (streamEncoder n).init ins =
+      ((streamEncoder n).delivered (streamEncoder n).init ins ++
+        encInflight ((streamEncoder n).runFrom (streamEncoder n).init ins)).map decTok :=
+  rel_run_init (streamEncoder n) encRel (by simp [encRel, streamEncoder, pipe2, encInflight])
+    (streamEncoder_step n) ins h
+
+/-- `StreamEncoder(n)` connected to `StreamDecoder(n)`: for every valid/ready schedule, the decoded token stream
+    is the accepted one (tokens of valid symbols), in order, up to the at most three tokens still in flight. -/
+theorem stream_roundtrip (n : Nat) (ins : List (In (List Sym))) :
+    let e := (streamEncoder n).comp (streamDecoder n)
+    (∀ t ∈ e.accepted e.init ins, AllValid t.data) →
+      e.accepted e.init ins =
+        e.delivered e.init ins ++ decInflight n (e.runFrom e.init ins).2 ++
+          (encInflight (e.runFrom e.init ins).1).map decTok ∧
+      e.delivered e.init ins <+: e.accepted e.init ins ∧
+      (e.accepted e.init ins).length ≤ (e.delivered e.init ins).length + 3 := by
+  intro e hv
+  have h := rel_run_init e (fun s x d => ∃ mid, encRel s.1 x mid ∧ decRel n s.2 mid d)
+    ⟨[], by simp [e, encRel, comp, streamEncoder, pipe2, encInflight],
+         by simp [e, decRel, comp, streamDecoder, pipe1, decInflight]⟩
+    (comp_rel (streamEncoder n) (streamDecoder n) encRel (decRel n) (streamEncoder_step n)
+      (streamDecoder_step n)) ins
+  obtain ⟨mid, h1, h2⟩ := h
+  have h1' := h1 hv
+  unfold decRel at h2
+  have heq : e.accepted e.init ins =
+      e.delivered e.init ins ++ decInflight n (e.runFrom e.init ins).2 ++
+        (encInflight (e.runFrom e.init ins).1).map decTok := by
+    rw [h1', List.map_append, h2]
+  refine ⟨heq, ?_, ?_⟩
+  · rw [heq, List.append_assoc]; exact List.prefix_append _ _
+  · rw [heq]
+    simp only [List.length_append, List.length_map, decInflight, encInflight]
+    split <;> split <;> split <;> simp
+
+/-- Full statement (FALSE on the code as it is): for every schedule the words delivered by `StreamEncoder` are the
+    chained encoding of the accepted symbols, so that the delivered serial stream is DC balanced.
+        theorem stream_disparity_open : ∀ ins, … delivered words = chained encoding of accepted symbols …
+    The encoder's disparity register is clocked by `pipe_ce` also when `sink.valid = 0`, with whatever is on the
+    data lines (see the negative witness below).  Proved: the statement in the region
+    "every enabled cycle carries a valid token" (`NoBubble`): the serial stream delivered (lsb-first words, word 0
+    first) is exactly the chained encoding from RD− of all accepted symbols but those of the last two tokens
+    (still in the pipeline); hence running disparity ±1 at word boundaries, within ±3 inside, no run of six, and
+    no comma if only data symbols were accepted. -/
+theorem stream_disparity_partial (n : Nat) (ins : List (In (List Sym)))
+    (hnb : NoBubble (streamEncoder n) ins)
+    (hb : ∀ t ∈ (streamEncoder n).accepted (streamEncoder n).init ins, Bytes t.data) :
+    let acc := (streamEncoder n).accepted (streamEncoder n).init ins
+    let bits := serialLsb (((streamEncoder n).delivered (streamEncoder n).init ins).flatMap (·.data))
+    let syms := acc.dropLast.dropLast.flatMap (·.data)
+    bits = serial (encodeSeq false syms) ∧
+    (∀ k, rd false + bal (bits.take (10 * k)) = 1 ∨ rd false + bal (bits.take (10 * k)) = -1) ∧
+    (∀ m, -3 ≤ rd false + bal (bits.take m) ∧ rd false + bal (bits.take m) ≤ 3) ∧
+    (∀ b, ¬ List.replicate 6 b <:+: bits) ∧
+    ((∀ t ∈ acc, ∀ s ∈ t.data, s.k = false) →
+      ¬ [false, false, true, true, true, true, true] <:+: bits ∧
+      ¬ [true, true, false, false, false, false, false] <:+: bits) := by
+  intro acc bits syms
+  have h := rel_run_along (streamEncoder n) (nbRel n) (NoBubbleAt (streamEncoder n))
+    (streamEncoder_nb_step n) ins (streamEncoder n).init [] []
+    (by simp [nbRel, streamEncoder, pipe2, encDatapath, encRun, encodeSeq]) hnb
+  simp only [List.nil_append] at h
+  obtain ⟨_, _, _, hd⟩ := h
+  have hsyms : Bytes syms := by
+    intro s hs
+    simp only [syms, List.mem_flatMap] at hs
+    obtain ⟨t, ht, hst⟩ := hs
+    exact hb t (mem_of_mem_dropLast2 ht) s hst
+  have hbits : bits = serial (encodeSeq false syms) := by
+    simp only [bits]
+    rw [hd]
+    exact serialLsb_fmt _ (encodeSeq_lt false syms hsyms)
+  obtain ⟨_, hb1, hb2⟩ := running_disparity_bound false syms hsyms
+  refine ⟨hbits, ?_, ?_, ?_, ?_⟩
+  · rw [hbits]; exact hb1
+  · rw [hbits]; exact hb2
+  · rw [hbits]; exact run_length_5 false syms hsyms
+  · intro hk
+    have hdata : syms = dataSyms (syms.map (·.d)) := by
+      simp only [dataSyms, List.map_map]
+      conv => lhs; rw [← List.map_id syms]
+      apply List.map_congr_left
+      intro s hs
+      simp only [syms, List.mem_flatMap] at hs
+      obtain ⟨t, ht, hst⟩ := hs
+      have := hk t (mem_of_mem_dropLast2 ht) s hst
+      cases s; simp_all
+    rw [hbits, hdata]
+    exact no_false_comma false _ (by
+      intro d hd
+      simp only [List.mem_map] at hd
+      obtain ⟨s, hs, rfl⟩ := hd
+      exact hsyms s hs)
+
+/-- A producer that always offers a token (D3.0, D3.0, D3.0, D5.0, …) with a consumer that stalls. -/
+def fullIns : List (In (List Sym)) :=
+  let t (d : Nat) : Tok (List Sym) := ⟨[⟨d, false⟩], false, false⟩
+  [⟨true, t 3, true⟩, ⟨true, t 3, false⟩, ⟨true, t 3, true⟩, ⟨true, t 5, false⟩, ⟨false, t 9, false⟩,
+   ⟨true, t 5, true⟩]
+
+/-- Non-vacuity of the region: `fullIns` satisfies `NoBubble`, and tokens are really delivered. -/
+example : NoBubble (streamEncoder 1) fullIns ∧
+    ((streamEncoder 1).delivered (streamEncoder 1).init fullIns).map (·.data) =
+      [[rev10 0b1100011011], [rev10 0b1100010100]] := by
+  decide +kernel
+
+/-- D3.0 tokens separated by one `valid = 0` cycle with the data lines unchanged, consumer always ready. -/
+def bubbleIns : List (In (List Sym)) :=
+  let t : Tok (List Sym) := ⟨[⟨3, false⟩], false, false⟩
+  [⟨true, t, true⟩, ⟨false, t, true⟩, ⟨true, t, true⟩, ⟨false, t, true⟩, ⟨true, t, true⟩, ⟨false, t, true⟩,
+   ⟨true, t, true⟩, ⟨false, t, true⟩, ⟨false, t, true⟩, ⟨false, t, true⟩]
+
+def bubbleWords : List Nat :=
+  ((streamEncoder 1).delivered (streamEncoder 1).init bubbleIns).flatMap (·.data)
+
+/-- **Negative witness** (known finding `C17-stream-bubble-disparity`) on `bubbleIns`: every delivered word has
+    6 ones, the cumulative disparity of the delivered stream is 2, 4, 6, 8 — the conclusion of
+    `stream_disparity_partial` fails (its hypothesis `NoBubble` fails on this schedule), while the words still
+    decode correctly. -/
+example :
+    ¬ NoBubble (streamEncoder 1) bubbleIns ∧
+    bubbleWords.map ones10 = [6, 6, 6, 6] ∧
+    bal (serialLsb bubbleWords) = 8 ∧
+    ¬ (rd false + bal ((serialLsb bubbleWords).take (10 * 2)) = 1 ∨
+       rd false + bal ((serialLsb bubbleWords).take (10 * 2)) = -1) ∧
+    bubbleWords.map decodeSym = [⟨3, false⟩, ⟨3, false⟩, ⟨3, false⟩, ⟨3, false⟩] := by
+  decide +kernel
 
 end Litex.C17
